@@ -1636,9 +1636,14 @@ sexp sexp_register_optimization (sexp ctx, sexp self, sexp_sint_t n, sexp f, sex
     maybe_convert_complex(z, f)                                         \
     else                                                                \
       return sexp_type_exception(ctx, self, SEXP_NUMBER, z);            \
-    if (d < a || d > b)							\
-      return sexp_complex_normalize					\
-	(f(ctx, sexp_make_complex(ctx, z, SEXP_ZERO)));			\
+    if (d < a || d > b) {						\
+      sexp_gc_var1(tmp);						\
+      sexp_gc_preserve1(ctx, tmp);					\
+      tmp = sexp_make_complex(ctx, z, SEXP_ZERO);			\
+      tmp = sexp_complex_normalize(f(ctx, tmp));			\
+      sexp_gc_release1(ctx);						\
+      return tmp;							\
+    }									\
     return sexp_make_flonum(ctx, cname(d));                             \
   }
 #else
